@@ -208,7 +208,7 @@ def make_layout(rng, volumes=None, home_own_volume=None, uid=None, xdg=None,
     L.mounts = [''] + list(volumes) + (['home'] if home_own_volume else [])
     L.uid = rng.choice([0, 1, 123, 1000, 65534, 2 ** 31 - 1]) \
         if uid is None else uid
-    L.home = 'home/u'
+    L.home = 'home/' + rng.choice(['u'] * 9 + ['sysinfo'])
     if home_set:
         L.env['HOME'] = '@/' + L.home
     L.add({'p': L.home, 't': 'd', 'm': 0o755})
